@@ -31,6 +31,15 @@ var handled int64
 
 var setupOnce sync.Once
 
+// hostileNoEOF counts hostile connections that were not closed by the serving peer within the liveness bound.
+var hostileNoEOF int64
+
+// RaceSlow is a handler that is still running when the next frame of its connection arrives.
+func RaceSlow(ctx erpc.CallCtx, a *RArg) (*RArg, *erpc.Status) {
+	time.Sleep(time.Duration(100+a.N%400) * time.Microsecond)
+	return &RArg{S: a.S, N: a.N + 1}, nil
+}
+
 func RaceEcho(ctx erpc.CallCtx, a *RArg) (*RArg, *erpc.Status) {
 	atomic.AddInt64(&handled, 1)
 	// handlers use the session too
@@ -60,7 +69,7 @@ func (agePlugin) PostAccept(s erpc.PreSession) *erpc.Status {
 	return nil
 }
 
-var opKinds = []string{"call", "call", "asynccall", "inspect", "inspect", "push", "rpush", "rcall", "setid", "swapstore", "swapload", "swaprange", "ages", "health", "closenotify", "getsession", "rangesession", "countsession", "close"}
+var opKinds = []string{"call", "call", "asynccall", "inspect", "inspect", "push", "rpush", "rcall", "setid", "swapstore", "swapload", "swaprange", "ages", "health", "closenotify", "getsession", "rangesession", "countsession", "hostile", "close"}
 
 // operations that do not involve a network round trip
 var localOps = map[string]bool{"setid": true, "swapstore": true, "swapload": true, "swaprange": true, "ages": true, "health": true,
@@ -131,6 +140,7 @@ func runProg(p prog, protos []vt.NamedProto) (sameSessionPairs int) {
 	srv := w.Peer(erpc.PeerConfig{PrintDetail: true, CountTime: p.LogInfo}, agePlugin{})
 	cli := w.Peer(erpc.PeerConfig{})
 	callR, pushR := srv.RouteCallFunc(RaceEcho), srv.RoutePushFunc(RaceNote)
+	slowR := srv.RouteCallFunc(RaceSlow)
 	cli.RouteCallFunc(RaceEcho)
 	cli.RoutePushFunc(RaceNote)
 	var links []*vt.Link
@@ -186,6 +196,20 @@ func runProg(p prog, protos []vt.NamedProto) (sameSessionPairs int) {
 							default:
 							}
 						}
+					case "hostile":
+						// one more connection of the serving peer, whose remote end sends a call to a
+						// handler that takes a while and, behind it, a frame of an unsupported type
+						// (the session is closed for that), while the other workers go on
+						hp := vt.NewPair()
+						go srv.ServeConn(hp.B, protoByName(protos, p.Proto).Fn)
+						hr := vt.NewRawPeer(hp, hp.A, protoByName(protos, p.Proto).Fn)
+						body := []byte(fmt.Sprintf(`{"S":%q,"N":%d}`, arg.S, arg.N))
+						hr.Send(vt.Msg{Seq: 1, Mtype: erpc.TypeCall, Method: slowR, Codec: 'j', Body: body})
+						hr.Send(vt.Msg{Seq: 2, Mtype: byte(9 + arg.N%40), Method: callR, Codec: 'j', Body: body})
+						if !hr.WaitEOF() {
+							atomic.AddInt64(&hostileNoEOF, 1)
+						}
+						hr.Close()
 					case "push":
 						l.A.Push(pushR, arg, settings...)
 					case "rpush":
@@ -253,8 +277,13 @@ func runProg(p prog, protos []vt.NamedProto) (sameSessionPairs int) {
 }
 
 func TestC14Programs(t *testing.T) {
-	rec := vt.NewRec(t, "C14", "programs", "generated concurrent programs: 2-10 goroutines each running 1-12 documented-safe operations (Call, AsyncCall, inspection of completed calls' status/result/reply metadata, Push in both directions, handler replies, SetID, Swap store/load/range, age getters, Health, CloseNotify, GetSession, RangeSession, CountSession, Close as a last op) on 1-2 shared sessions between two peers, two programs in five as contention bursts (2-4 goroutines repeating 1-3 operations drawn from a per-program focus set of 1-3 kinds, 40 / 150 times, 3000 times when no network round trip is involved), protocols raw/json/pb, with/without a filter pipe, a second process runs the same generator with run-logging at INFO and PrintDetail; oracle: the Go race detector (binary built with -race), reports are parsed by the driver and count only if both accesses are in framework code; non-trivial = >=2 goroutines touched the same session (measured); distinct by program")
+	rec := vt.NewRec(t, "C14", "programs", "generated concurrent programs: 2-10 goroutines each running 1-12 documented-safe operations (Call, AsyncCall, inspection of completed calls' status/result/reply metadata, Push in both directions, handler replies, an extra connection of the serving peer whose remote end sends a call to a slow handler and behind it a frame of an unsupported type - the framework closes that session while the other goroutines go on -, SetID, Swap store/load/range, age getters, Health, CloseNotify, GetSession, RangeSession, CountSession, Close as a last op) on 1-2 shared sessions between two peers, two programs in five as contention bursts (2-4 goroutines repeating 1-3 operations drawn from a per-program focus set of 1-3 kinds, 40 / 150 times, 3000 times when no network round trip is involved), protocols raw/json/pb, with/without a filter pipe, a second process runs the same generator with run-logging at INFO and PrintDetail; oracle: the Go race detector (binary built with -race), reports are parsed by the driver and count only if both accesses are in framework code; non-trivial = >=2 goroutines touched the same session (measured); distinct by program")
 	protos := vt.StreamProtos()
+	defer func() {
+		if n := atomic.LoadInt64(&hostileNoEOF); n > 0 {
+			rec.Note("%d hostile connection(s) were not closed by the serving peer within the liveness bound (not judged here: C03/C06)", n)
+		}
+	}()
 	rapid.Check(t, func(t *rapid.T) {
 		p := genProg(t, protos)
 		shared := runProg(p, protos)
